@@ -2,7 +2,7 @@ import IcyVerif.Model.Sixel
 set_option linter.unusedSimpArgs false
 set_option linter.unusedVariables false
 /-! Invariant of the sixel machine: every row length is a multiple of 4 and within the modelled range;
-    the palette is never empty.  Preserved by every step; implies that the index/`%` panic sites are
+    the palette is never empty.  Preserved by every step; implies that every panic site is
     unreachable and that the output is a full rectangle. -/
 namespace IcyVerif.Sixel
 
@@ -15,13 +15,11 @@ structure Good (s : St) : Prop where
   palPos : 0 < s.palLen
   palLe : s.palLen ≤ hugeLimit
 
-def isCursor (p : Site) : Prop := p = .cursorX ∨ p = .cursorY ∨ p = .cursorY6
-
-/-- what a step from a good state may produce: a good state, a parse error, the out-of-range outcome,
-    or a panic at one of the three cursor-arithmetic sites -/
+/-- what a step from a good state may produce: a good state, a parse error or the out-of-range outcome —
+    never a panic -/
 def OutGood : Out St → Prop
   | .ok s => Good s
-  | .panic p => isCursor p
+  | .panic _ => False
   | _ => True
 
 theorem good_init : Good {} := by
@@ -133,7 +131,7 @@ theorem translate_good {s : St} (g : Good s) (ch : Char) : OutGood (translate s 
   · have := g.palPos; have := g.palLe; simp only [hugeLimit] at *; omega
   simp only [h2, if_false]
   by_cases h3 : s.y * 6 + 6 > i32Max
-  · simp only [h3, if_true]; exact Or.inr (Or.inr rfl)
+  · simp only [h3, if_true]; trivial
   simp only [h3, if_false]
   have hg := growRows_spec g.rows g.height (lastLineOf s)
   revert hg
@@ -148,7 +146,7 @@ theorem translate_good {s : St} (g : Good s) (ch : Char) : OutGood (translate s 
       intro ⟨h1, h2⟩
       simp only
       split
-      · exact Or.inl rfl
+      · trivial
       · exact ⟨h1, by simp only; omega, g.palPos, g.palLe⟩
     | err e => intro h; exact h.elim
     | panic p => intro h; exact h.elim
@@ -165,7 +163,7 @@ theorem sixelData_good {s : St} (g : Good s) (ch : Char) : OutGood (sixelData s 
   · exact ⟨g.rows, g.height, g.palPos, g.palLe⟩
   split
   · split
-    · exact Or.inr (Or.inl rfl)
+    · trivial
     · exact ⟨g.rows, g.height, g.palPos, g.palLe⟩
   split
   · exact ⟨g.rows, g.height, g.palPos, g.palLe⟩
